@@ -3,6 +3,17 @@ use vharness::cli::{quiet_panics, Args};
 fn main() {
     let a = Args::parse();
     quiet_panics();
+    // a panic that escapes the recorder itself (not the code under test, whose panics are trace events) is a tool
+    // error: say where it happened
+    let r = std::panic::catch_unwind(std::panic::AssertUnwindSafe(|| dispatch(&a)));
+    if r.is_err() {
+        eprintln!("HARNESS-PANIC (recorder, not the code under test): {}", vharness::cli::LAST_PANIC.lock().map(|l| l.clone()).unwrap_or_default());
+        std::process::exit(101);
+    }
+}
+
+fn dispatch(a: &Args) {
+    let a = a.clone();
     match a.cmd.as_str() {
         "toa" => vharness::modrec::toa(&a),
         "ldro" => vharness::modrec::ldro(&a),
